@@ -15,7 +15,7 @@ AsciiNames == { <<>>, <<120>>, Ascii, <<85, 115, 69, 114, 49>>, [i \in 1..64 |->
 Passwords == { <<>>, <<112>>, <<112, 97, 115, 115, 119, 111, 114, 100>>, <<80, 228, 223, 223, 119, 246, 114, 116, 8364>>, <<128273, 128274, 49>>, [i \in 1..64 |-> 33 + (i % 90)] }
 Challenges == { <<0, 0, 0, 0, 0, 0, 0, 0>>, <<255, 255, 255, 255, 255, 255, 255, 255>>, <<1, 35, 69, 103, 137, 171, 205, 239>> }
 RandBytes(n) == [i \in 1..n |-> RandomElement(0..255)]
-FlagClasses == {"default", "noversion", "oem", "oem_noversion"}
+FlagClasses == {"default", "noversion", "oem", "oem_noversion", "unicode_and_oem", "unicode_and_oem_noversion"}
 
 ValLen(id) == IF id = 6 THEN 4 ELSE IF id = 7 THEN 8 ELSE IF id = 8 THEN 48 ELSE IF id = 10 THEN 16 ELSE Pick({0, 2, 8, 30, 400})
 RECURSIVE Shuffle(_)
